@@ -43,6 +43,68 @@ type vxFloat struct {
 	F3 float32 `json:"f3"`
 }
 
+type vx8 struct {
+	F0 int `json:"fa"`
+	F1 int `json:"fb"`
+	F2 int `json:"fc"`
+	F3 int `json:"fd"`
+	F4 int `json:"fe"`
+	F5 int `json:"ff"`
+	F6 int `json:"fg"`
+	F7 int `json:"fh"`
+}
+
+type vx9 struct {
+	F0 int `json:"fa"`
+	F1 int `json:"fb"`
+	F2 int `json:"fc"`
+	F3 int `json:"fd"`
+	F4 int `json:"fe"`
+	F5 int `json:"ff"`
+	F6 int `json:"fg"`
+	F7 int `json:"fh"`
+	F8 int `json:"fi"`
+}
+
+type vx16 struct {
+	F0  int `json:"fa"`
+	F1  int `json:"fb"`
+	F2  int `json:"fc"`
+	F3  int `json:"fd"`
+	F4  int `json:"fe"`
+	F5  int `json:"ff"`
+	F6  int `json:"fg"`
+	F7  int `json:"fh"`
+	F8  int `json:"fi"`
+	F9  int `json:"fj"`
+	F10 int `json:"fk"`
+	F11 int `json:"fl"`
+	F12 int `json:"fm"`
+	F13 int `json:"fn"`
+	F14 int `json:"fo"`
+	F15 int `json:"fp"`
+}
+
+type vx17 struct {
+	F0  int `json:"fa"`
+	F1  int `json:"fb"`
+	F2  int `json:"fc"`
+	F3  int `json:"fd"`
+	F4  int `json:"fe"`
+	F5  int `json:"ff"`
+	F6  int `json:"fg"`
+	F7  int `json:"fh"`
+	F8  int `json:"fi"`
+	F9  int `json:"fj"`
+	F10 int `json:"fk"`
+	F11 int `json:"fl"`
+	F12 int `json:"fm"`
+	F13 int `json:"fn"`
+	F14 int `json:"fo"`
+	F15 int `json:"fp"`
+	F16 int `json:"fq"`
+}
+
 // c04Via: the three routes of the statement: Marshal/Unmarshal, MarshalIndent/Unmarshal, Encoder/Decoder.
 func c04Via(t *verifrt.T, in, out interface{}) {
 	var text []byte
@@ -173,6 +235,32 @@ func H_C04_extremes(t *verifrt.T) {
 		c04Via(t, &v, &w)
 		t.Assert("bytes-reproduced", verifrt.And((w.B == nil) == (v.B == nil), verifref.BytesEq(w.B, v.B)))
 		t.Assert("string-reproduced", w.T == v.T)
+	case 4:
+		// structs with 8, 9, 16 and 17 members: the sizes around the key decoders' switch points
+		// (8-bit bitmap, 16-bit bitmap, map lookup)
+		a := int(smallInt(t, "a"))
+		switch t.Choice("members", 4) {
+		case 0:
+			v := vx8{a + 0, a + 1, a + 2, a + 3, a + 4, a + 5, a + 6, a + 7}
+			var w vx8
+			c04Via(t, &v, &w)
+			t.Assert("members-reproduced", w == v)
+		case 1:
+			v := vx9{a + 0, a + 1, a + 2, a + 3, a + 4, a + 5, a + 6, a + 7, a + 8}
+			var w vx9
+			c04Via(t, &v, &w)
+			t.Assert("members-reproduced", w == v)
+		case 2:
+			v := vx16{a + 0, a + 1, a + 2, a + 3, a + 4, a + 5, a + 6, a + 7, a + 8, a + 9, a + 10, a + 11, a + 12, a + 13, a + 14, a + 15}
+			var w vx16
+			c04Via(t, &v, &w)
+			t.Assert("members-reproduced", w == v)
+		case 3:
+			v := vx17{a + 0, a + 1, a + 2, a + 3, a + 4, a + 5, a + 6, a + 7, a + 8, a + 9, a + 10, a + 11, a + 12, a + 13, a + 14, a + 15, a + 16}
+			var w vx17
+			c04Via(t, &v, &w)
+			t.Assert("members-reproduced", w == v)
+		}
 	case 2:
 		f := []float64{0, 1, -1, 0.1, 1.0 / 3.0, 1e21, 1e20, 1e-6, 1e-7, math.MaxFloat64, math.SmallestNonzeroFloat64, -math.MaxFloat64,
 			5e-324, 123456789.123456789, 9007199254740993, 4.9406564584124654e-324}[t.Choice("f64", 16)]
